@@ -58,10 +58,19 @@ def generated_sources(n_per_fmt=3, base_seed=0):
     return out
 
 
+HTML_CHARSETS = ["utf-8", "iso-8859-1", "windows-1252", "iso-8859-8-i", "iso-8859-8-e", "koi8-r", "shift_jis", "x-mac-roman", "utf-16", "no-such-charset", "iso-8859-15", "cp437"]
+
+
 def all_sources(n_gen=3, base_seed=0):
     src = fixture_sources()
     for k, v in generated_sources(n_gen, base_seed).items():
         src.setdefault(k, []).extend(v)
+    # archives of generated, image-bearing documents (several results per input) in a few layouts
+    for i, layout in enumerate(["zip-deflated", "tar.gz", "7z-lzma-solid", "7z-lzma-per-file"]):
+        src.setdefault("zip", []).append(["arch", layout, base_seed + i, 3])
+    # HTML declaring charsets Python may or may not know, with high bytes in the body
+    for cs in HTML_CHARSETS:
+        src.setdefault("html", []).append(["htmlcs", cs])
     return src
 
 
@@ -76,6 +85,21 @@ def _load(key: str) -> bytes:
         return docs.build(src[1], src[2], src[3])[0]
     if src[0] == "raw":
         return core.unb64(src[1])
+    if src[0] == "arch":
+        from vlib.gen import archives, docs
+        members = []
+        for i, fmt in enumerate(["docx", "pptx", "xlsx", "odt", "pdf"][: src[3] + 2]):
+            data = docs.build(fmt, src[2] * 10 + i)[0]
+            members.append({"name": f"d{i}/doc{i}{docs.BUILDERS[fmt][3]}", "data": data, "type": "file"})
+        return archives.build(src[1], members)
+    if src[0] == "htmlcs":
+        cs = src[1]
+        body = "qb00001z caf\u00e9 \u05e9\u05dc\u05d5\u05dd qb00002z"
+        try:
+            raw = body.encode(cs)
+        except (LookupError, UnicodeEncodeError):
+            raw = b"qb00001z caf\xe9 \xf9\xec\xe5\xed qb00002z"
+        return b'<html><head><meta http-equiv="Content-Type" content="text/html; charset=' + cs.encode() + b'"><title>t</title></head><body><p>' + raw + b"</p></body></html>"
     raise ValueError(src)
 
 
@@ -91,6 +115,11 @@ def source_ext(src) -> str:
     if src[0] == "gen":
         from vlib.gen import docs
         return docs.BUILDERS[src[1]][3]
+    if src[0] == "arch":
+        from vlib.gen import archives
+        return archives.ext_of(src[1])
+    if src[0] == "htmlcs":
+        return ".html"
     return ".bin"
 
 
